@@ -446,6 +446,21 @@ def point_pair(rng, K, G):
 
 def gen_group_ops(rng, n, which):
     out = []
+    # identities with vanishing coordinates against a genuine point, both operand orders (fixed cases: a cross-multiplied
+    # comparison without the identity early-outs is trivially true against (0,0,0))
+    for g, K, G in (('g1', K1, P1), ('g2', K2, P2)):
+        A = pt_mul(K, rng.randrange(1, r), G)
+        ta = rep(rng, K, A)[1]
+        for lab, x, y in (('(0,0,0)', K.zero, K.zero), ('(x,0,0)', K.rand(rng), K.zero), ('(0,y,0)', K.zero, K.rand(rng))):
+            o = jac_raw(K, x, y, K.zero)
+            if which in ('C15', 'C04', 'C16'):
+                out.append((f'{g}.eq:point/O:{lab}', f'{g}.eq {ta} {o}'))
+                out.append((f'{g}.eq:O:{lab}/point', f'{g}.eq {o} {ta}'))
+            if which == 'C15':
+                out.append((f'{g}.normalize:O:{lab}', f'{g}.normalize {o}'))
+            if which == 'C04':
+                out.append((f'{g}.add:point+O:{lab}', f'{g}.add {ta} {o}'))
+                out.append((f'{g}.sub:O:{lab}-point', f'{g}.sub {o} {ta}'))
     for _ in range(n):
         g, K, G = rng.choice([('g1', K1, P1), ('g2', K2, P2)])
         rel, A, Bp = point_pair(rng, K, G)
